@@ -14,11 +14,11 @@ def describe(tier):
                 'both keyword orders plus boundary profiles (lengths v-1,v,v+1 around block/level/2^k boundaries <= 70); for each database '
                 'the absent-keyword family built from the stored keywords: proper prefix, proper suffix, +1 byte, +trailing NUL, last bit '
                 'flipped, first bit flipped, case swapped, two stored keywords concatenated (both orders), fresh random, maximal-length, '
-                'single byte - all filtered to be valid and really absent. Oracle: Search(TokenGen(w\')) raises nothing and returns an '
+                'single byte, the empty keyword, and the keywords of a second database encrypted under the same key by the same scheme object - all filtered to be valid and really absent. Oracle: Search(TokenGen(w\')) raises nothing and returns an '
                 'empty result. non-trivial = absent keyword derived from a stored keyword.' % n,
         'bounds': 'N<=%d exhaustive over partitions; 3 stored keywords x 7 derivations + 5 others per database' % n,
         'assumptions': ['label/PRP collision of an absent keyword with a filler entry has probability <= |table| * 2^-64 per case'],
-        'must_be_nonzero': ['prefix', 'suffix', 'concat', 'plus-nul', 'maxlen'],
+        'must_be_nonzero': ['prefix', 'suffix', 'concat', 'plus-nul', 'maxlen', 'other-db-same-key'],
     }
 
 
@@ -48,7 +48,7 @@ def units(tier, seed):
     return us
 
 
-def run_case(r, seed, name, label, cfg, profile, kwlen, relation, only=None):
+def run_case(r, seed, name, label, cfg, profile, kwlen, relation, only=None, cache=None):
     kwlen = min(kwlen, sse.kw_limit(name, cfg))
     case = {'scheme': name, 'label': label, 'cfg': cfg, 'profile': profile, 'kwlen': kwlen, 'relation': relation}
     core.note_case(case)
@@ -60,13 +60,31 @@ def run_case(r, seed, name, label, cfg, profile, kwlen, relation, only=None):
     L = sse.loader(name)
     r['states'] += 1
     try:
-        scheme = L.SSEScheme(cfg2)
+        scheme = sse.shared_scheme(cache, L, cfg2) if cache is not None else L.SSEScheme(cfg2)
         key = scheme.KeyGen()
         edb = scheme.EDBSetup(key, db)
         r['transitions'] += 2
     except Exception as e:
         r.count('setup-raises (C01\'s subject, skipped here)')
         return
+    # a second database with other keywords (and partly the same identifiers) encrypted under the SAME key by the same scheme
+    # object: its keywords are absent from the first index and vice versa
+    try:
+        other = domains.make_db(profile, cfg.get('param_identifier_size', 8), kwlen, g, relation)
+        other = {w: ids for w, ids in other.items() if w not in db}
+        if other and sse.finalize_cfg(name, cfg, other) == cfg2:
+            edb_other = scheme.EDBSetup(key, other)
+            r['transitions'] += 1
+            for w in list(db)[:3]:
+                r['evaluations'] += 1
+                r.count('other-db-same-key')
+                got = scheme.Search(edb_other, scheme.TokenGen(key, w)).get_result_list()
+                if len(got) != 0:
+                    r.v(PROPERTY, name, 'nonempty', 'keyword-of-another-database-under-the-same-key', dict(case, absent_kind='other-db', keyword=w),
+                        'empty result', got)
+            absent = absent + [('other-db', w) for w in list(other)[:3] if len(w) <= sse.kw_limit(name, cfg)]
+    except Exception as e:
+        r.v(PROPERTY, name, 'search-raises', 'other-db:%s:%s' % (core.exc_site(e), type(e).__name__), case, 'second setup under the same key works', core.exc_text(e))
     for tag, w in absent:
         if only is not None and w != only:
             continue
@@ -102,13 +120,21 @@ def run_case(r, seed, name, label, cfg, profile, kwlen, relation, only=None):
 def run_unit(p, tier, seed):
     r = core.Result()
     name, label, cfg = p['scheme'], p['label'], p['cfg']
-    for profile, kwlen, relation in case_list(name, label, cfg, tier)[p['lo']:p['hi']]:
-        run_case(r, seed, name, label, cfg, profile, kwlen, relation)
+    cache = {}
+    for i, (profile, kwlen, relation) in enumerate(case_list(name, label, cfg, tier)[p['lo']:p['hi']]):
+        n0 = len(r['violations'])
+        run_case(r, seed, name, label, cfg, profile, kwlen, relation, cache=cache)
+        for v in r['violations'][n0:]:
+            v['case']['unit'] = core.enc({'tier': tier, 'lo': p['lo'], 'index': i})
     det.restore()
     return r
 
 
 def replay(case, seed):
+    u = case.get('unit')
+    if u:
+        full = run_unit({'scheme': case['scheme'], 'label': case['label'], 'cfg': case['cfg'], 'lo': u['lo'], 'hi': u['lo'] + u['index'] + 1}, u['tier'], seed)
+        return [v for v in full['violations'] if core.dec(v['case']).get('profile') == case['profile'] and core.dec(v['case']).get('keyword') == case.get('keyword')]
     r = core.Result()
     run_case(r, seed, case['scheme'], case['label'], case['cfg'], case['profile'], case['kwlen'], case['relation'], only=case.get('keyword'))
     return r['violations']
